@@ -332,6 +332,11 @@ def enabled_ops(m, maxrows):
         ops.append(['sub', cols[:2]])
         ops.append(['sub', ['z']])
         ops.append(['inc_kw_none', cols[0]])
+        if n and len(cols) >= 2:
+            ops.append(['exc_dict_kw'])
+            ops.append(['inc_dict_kw'])
+        if 'a' in cols and 'b' in cols:
+            ops.append(['derive2'])
     ops.append(['copy'])
     ops.append(['inc0'])
     ops.append(['exc0'])
@@ -526,6 +531,21 @@ def apply_op(op, t, m):
             e1['zz'] = []
             e2 = t.inc(lambda **kw: False) if n % 2 else t.exc(lambda **kw: True)
             return ret(e2, Model(m.cols, []))
+        if o in ('exc_dict_kw', 'inc_dict_kw'):
+            # a filter dict passed positionally TOGETHER with a keyword filter is one conjunction: the values of the first row in the first two columns
+            c0, c1 = sorted(m.cols)[:2]
+            v0, v1 = m.rows[0][c0], m.rows[0][c1]
+            plainv = lambda v: isinstance(v, (int, str)) and not isinstance(v, bool)
+            if not (plainv(v0) and plainv(v1)):
+                return ret(t.copy(), m.copy())
+            both = lambda r: type(r[c0]) is type(v0) and r[c0] == v0 and type(r[c1]) is type(v1) and r[c1] == v1
+            if o == 'exc_dict_kw':
+                return ret(t.exc({c0: v0}, **{c1: v1}), Model(m.cols, [r for r in m.rows if not both(r)]))
+            return ret(t.inc({c0: v0}, **{c1: v1}), Model(m.cols, [r for r in m.rows if both(r)]))
+        if o == 'derive2':
+            # TWO functions in one call, the reader listed BEFORE the producer it depends on, the producer re-deriving a column that already exists
+            newm = Model(m.cols + ([] if 'c' in m.cols else ['c']), [dict(r, b=('b', r['a']), c=('c', ('b', r['a']))) for r in m.rows])
+            return ret(t(c=lambda b: ('c', b), b=lambda a: ('b', a)), newm)
         if o == 'inc_kw_none':
             return ret(t.inc(**{op[1]: ['__no_such_value__']}), Model(m.cols, []))
         if o == 'radd0':
